@@ -2,6 +2,8 @@
 
 package internal
 
+import "github.com/Yiling-J/theine-go/internal/clock"
+
 // Contracts for persistence (entry.go pentry/entry, store.go Recover/insertSimple; properties C11, C12) and
 // for the hybrid paths (processSecondary, DeleteWithSecondary; properties C14, C15).
 // The byte layer is ASSUMED (A-GOB): decoding yields an arbitrary value or an error.
@@ -73,6 +75,8 @@ func gh_lastType() uint8 { panic("ghost") }
 func ext_clock_Clock_SetStart(c any, ts int64, m *StoreMeta, version uint64) {
 	requires("version_checked", m.Version == version)
 	set(gh_metaSeen(), true)
+	// the time base changes: clock readings taken before this call say nothing about deadlines any more
+	havoc(clock.Gh_now())
 }
 
 // C12: an entry is inserted only after the metadata block (with the matching version) has been seen
@@ -80,6 +84,9 @@ func (s *Store[K, V]) spec_insertSimple(entry *Entry[K, V]) {
 	flag("holds_policy")
 	requires("meta_seen", gh_metaSeen())
 	requires("entry", entry != nil)
+	// C11 "entries that have expired meanwhile are dropped": the deadline was compared with a reading of the
+	// clock taken after the saved origin was adopted
+	requires("not_expired", entry.expire.Load() == 0 || entry.expire.Load() >= clock.Gh_now())
 }
 
 func (s *Store[K, V]) spec_Recover(version uint64, reader any) (err error) {
